@@ -418,7 +418,7 @@ fn enc_strategy(_t: Tier) -> BoxedStrategy<EncCase> {
                 proptest::collection::vec(prop::bool::weighted(0.3), r * r),
                 proptest::collection::vec(any::<u16>(), r),
                 (proptest::collection::vec(any::<bool>(), p), any::<u16>(), prop::bool::weighted(0.6)),
-                (proptest::collection::vec(proptest::collection::vec(0u8..=1, k), 0..=5), 0..k),
+                (prop_oneof![12 => proptest::collection::vec(proptest::collection::vec(0u8..=1, k), 0..=5), 1 => proptest::collection::vec(proptest::collection::vec(0u8..=1, k), 700..=3000)], 0..k),
                 prop_oneof![
                     12 => Just(EncFault::None),
                     1 => prop_oneof![Just("1,2".to_string()), Just("a".to_string()), Just("1,,0".to_string()), Just("1,0,".to_string())].prop_map(EncFault::BadPattern),
@@ -745,7 +745,7 @@ pub fn property() -> Property {
             }),
             Box::new(Sub {
                 name: "encode",
-                rule: "generated systematic H (k >= 1), optional puncturing pattern dividing n, input file of 0..=5 complete words plus 0..k-1 trailing bytes: the output file is exactly the concatenation of the (punctured) codewords of the library encoder, nothing more; bad pattern, missing input, missing alist, pattern not dividing n: non-zero status, no panic; non-trivial = at least one word",
+                rule: "generated systematic H (k >= 1), optional puncturing pattern dividing n, input file of 0..=5 (one case in 13: 700..=3000, i.e. several I/O buffers) complete words plus 0..k-1 trailing bytes: the output file is exactly the concatenation of the (punctured) codewords of the library encoder, nothing more; bad pattern, missing input, missing alist, pattern not dividing n: non-zero status, no panic; non-trivial = at least one word",
                 cases: |t| t.pick(2_000, 40_000),
                 strategy: enc_strategy,
                 check: check_enc,
